@@ -14,9 +14,9 @@ from fmon.ref import grammar as G
 from fmon.ref import algebra as A
 
 PROP = "C02"
-DECIDING = ["algebra-equals-reference", "duplicate-free", "returns-model"]
+DECIDING = ["algebra-equals-reference", "duplicate-free", "returns-model", "description-depends-on-text-only"]
 
-ATOMS6 = ["a", "b", "c", "f(x)", "f(x, 2)", 'g("s")', "f(h(x))"]
+ATOMS6 = ["a", "b", "c", "f(x)", "f(x, 2)", 'g("s")', "f(h(x))", "f(x, k=1)", "f(x, k=2)"]
 ATOMS3 = ["a", "b", "f(x, 2)"]
 ATOMS2 = ["a", "b"]
 OPS = ["+", "-", ":", "*", "/"]
@@ -218,6 +218,9 @@ def _rand_tree(rng, depth):
 
 
 def run_shard(i, n, tier, seed, m):
+    # histories FIRST (a bounded cache would be full later): describe, build a design from the same text
+    # (which inserts helper terms into ITS model), describe again - a description depends on the text only
+    core.guarded(history_driver)(m, random.Random(seed * 1000003 + i * 7 + 3), (300 if tier == "quick" else 6000) // n)
     k = -1
     for t in all_cases(tier):
         k += 1
@@ -227,6 +230,9 @@ def run_shard(i, n, tier, seed, m):
         if tier == "quick" and k >= N_SMALL:
             # 4-leaf trees: `T`, `y ~ T` and a rotating quarter of the other contexts
             emb = emb[:2] + [e for j, e in enumerate(emb[2:]) if (j + k) % 4 == 0]
+        elif tier == "quick" and k >= len(ATOMS6) + 5 * len(ATOMS6) ** 2:
+            # 3-leaf trees: a rotating half of the contexts
+            emb = emb[:2] + [e for j, e in enumerate(emb[2:]) if (j + k) % 2 == 0]
         for j, text in enumerate(emb):
             m.cases += 1
             m.distinct_count_only += 1
@@ -252,6 +258,60 @@ def run_shard(i, n, tier, seed, m):
                      "y ~ (0 | g)", "y ~ a ** b", "y ~ (a + b) ** 0", "a + b ~ c", "a:b ~ c"]:
             m.case({"text": text, "origin": "hostile"}, canon=text)
             observe(text, m)
+
+
+def history_driver(m, rng, count):
+    import formulae
+    import numpy as np
+    import pandas as pd
+
+    g = np.random.default_rng(2)
+    n = 24
+    df = pd.DataFrame({"y": g.normal(size=n), "x": g.normal(size=n)})
+    for j, nm in enumerate("abcde"):
+        lv = [f"{nm}{q}" for q in range(2 + j % 2)]
+        df[nm] = pd.Series([lv[q % len(lv)] for q in g.permutation(n)], dtype="str")
+    plain = ["a", "b", "c", "d", "e", "x"]
+    for _ in range(count):
+        k = rng.choice([2, 3, 3, 4])
+        atoms = rng.sample(plain, k)
+        nodes = [(a, True) for a in atoms]
+        while len(nodes) > 1:
+            j = rng.randrange(len(nodes) - 1)
+            (l, la), (r, ra) = nodes[j], nodes[j + 1]
+            op = rng.choice(["+", ":", "*", "/", ":"])
+            nodes[j : j + 2] = [(f"{l if la else '(' + l + ')'} {op} {r if ra else '(' + r + ')'}", False)]
+        text = ("y ~ " if rng.random() < 0.8 else "") + rng.choice(["", "0 + "]) + nodes[0][0]
+        case = {"text": text, "origin": "history"}
+        m.case(case, canon=["history", text], nontrivial=True)
+        m.ev("description-depends-on-text-only")
+        try:
+            ast = G.parse(text)
+            want = [A.Algebra(ident).model(ast) for ident in ("ordered", "set")]
+        except (G.NotSentence, A.Undefined):
+            continue
+        sigs = []
+        for step in ("describe", "design", "describe", "describe"):
+            try:
+                if step == "design":
+                    formulae.design_matrices(text, df)
+                    continue
+                sigs.append(A.real_keys(formulae.model_description(text), "ordered"))
+            except Exception as e:
+                sigs.append(("raise", type(e).__name__))
+        if any(s_ != sigs[0] for s_ in sigs[1:]):
+            m.violation("description-depends-on-text-only", f"{text!r}: described as {sigs[0]} at first, as {sigs[-1]} after a design was built from the same text",
+                        case=case, key="history:description-changed")
+        elif not isinstance(sigs[0], tuple) or sigs[0][0] == "raise":
+            pass
+        else:
+            r = sigs[0]
+            e = want[0]
+            if not (r[0] == e[0] and set(r[1]) == set(e[1]) and set(r[2]) == set(e[2])):
+                e2 = want[1]
+                r2 = A.real_keys(formulae.model_description(text), "set")
+                if not (set(r2[1]) == set(e2[1]) and set(r2[2]) == set(e2[2])):
+                    m.violation("algebra-equals-reference", f"{text!r}: {r} vs {e}", case=case, key="expansion-differs")
 
 
 def replay(rec, m):
